@@ -31,7 +31,7 @@ from vf.core import Ctx, digest, use_repo
 
 LEVEL = "exploration"
 P = "C04/solve_milp/"
-CASE_TIMEOUT = 20  # seconds per solver call (tiny instances need milliseconds)
+CASE_TIMEOUT = 60  # CPU seconds (ITIMER_VIRTUAL, load-independent) per solver call (tiny instances need milliseconds)
 
 
 # =============================================================================================== instances
@@ -441,21 +441,23 @@ def call_solver(inst, minimize, cfg):
     for k in ("max_nodes", "gap_tol"):
         if k in cfg:
             kw[k] = cfg[k]
-    old = signal.signal(signal.SIGALRM, _alarm)
-    signal.alarm(CASE_TIMEOUT)
+    old = signal.signal(signal.SIGVTALRM, _alarm)
+    signal.setitimer(signal.ITIMER_VIRTUAL, CASE_TIMEOUT)
     try:
-        with warnings.catch_warnings():
-            warnings.simplefilter("ignore")
-            res = solve_milp([v for v in inst["c"]], [list(r) for r in inst["A"]], list(inst["b"]),
-                             list(inst["integers"]), **kw)
+        try:
+            with warnings.catch_warnings():
+                warnings.simplefilter("ignore")
+                res = solve_milp([v for v in inst["c"]], [list(r) for r in inst["A"]], list(inst["b"]),
+                                 list(inst["integers"]), **kw)
+        finally:  # disarm inside the guarded region: a late signal is still caught below
+            signal.setitimer(signal.ITIMER_VIRTUAL, 0)
         return "result", res
     except _Timeout:
         return "timeout", CASE_TIMEOUT
     except Exception as e:  # noqa: BLE001 - a raise is an observation, reported by the caller
         return "raised", f"{type(e).__name__}: {e}"
     finally:
-        signal.alarm(0)
-        signal.signal(signal.SIGALRM, old)
+        signal.signal(signal.SIGVTALRM, old)
 
 
 def tau_of(inst):
